@@ -21,13 +21,15 @@ def Outcome():
 
 # ---------------------------------------------------------------- tunnel family
 
-def tunnel_family(pid, work, tier, seed, scripts, design, guards=None, what="", extra_cov=None, jobs=12):
+def tunnel_family(pid, work, tier, seed, scripts, design, guards=None, what="", extra_cov=None, jobs=12, owns=None):
     """Run scripts, validate with TunnelTrace, keep the violations of `pid`
     (re-executed once to confirm) and describe the coverage."""
     out = Outcome()
     res = ft.run_scripts(work, scripts, seed, tier, tag=pid.lower(), jobs=jobs)
-    mine = [v for v in res["viol"] if guard_property(v["guard"]) == pid and (guards is None or v["guard"] in guards)]
-    others = sorted({v["guard"] for v in res["viol"] if guard_property(v["guard"]) != pid})
+    if owns is None:
+        owns = lambda v: guard_property(v["guard"]) == pid and (guards is None or v["guard"] in guards)
+    mine = [v for v in res["viol"] if owns(v)]
+    others = sorted({v["guard"] for v in res["viol"] if not owns(v)})
     confirmed = []
     if mine:
         by_script = {}
@@ -100,3 +102,68 @@ def replay_tunnel(pid, work, tier, seed, path):
         raise HarnessError("replay file has no script")
     design = design_check("MC_Proto", "MC_Proto.cfg", work, workers=4, timeout=300)
     return tunnel_family(pid, work, tier, seed, [s], design)
+
+
+@check("C17")
+def c17(work, tier, seed, replay):
+    if replay:
+        return replay_tunnel("C17", work, tier, seed, replay)
+    design = design_check("MC_Proto", "MC_Proto.cfg", work, workers=8, timeout=600)
+    caps = design_check("MC_Caps", "MC_Caps.cfg", work, workers=8, timeout=600)
+    scripts = ft.gen_caps_scripts(tier, seed)
+    out = tunnel_family("C17", work, tier, seed, scripts, design, jobs=16,
+                        extra_cov={"caps_model": {"states": caps.get("distinct"), "note": "Match checked against its bitwise restatement for all 4 x 65536 pairs"},
+                                   "exhaustive": tier == "thorough"})
+    out.coverage["rule"] = ("every server setting {cookie, smart card} x client capability value (quick: all low-6-bit values, each low nibble with sampled high bits, 300 random; "
+                            "thorough: all 65536) run as a real handshake, version bytes varied per script; verdict by TLC (G_C17_MatchIff, G_C17_AdvertiseEcho)")
+    return out
+
+
+@check("C16")
+def c16(work, tier, seed, replay):
+    if replay:
+        return replay_tunnel("C16", work, tier, seed, replay)
+    design = design_check("MC_Proto", "MC_Proto.cfg", work, workers=8, timeout=600)
+    redir = design_check("MC_Redir", "MC_Redir.cfg", work, workers=4, timeout=300)
+    scripts = ft.gen_c16_scripts(tier, seed)
+    out = tunnel_family("C16", work, tier, seed, scripts, design, jobs=16,
+                        extra_cov={"redir_model": {"states": redir.get("distinct"), "note": "RedirFlags vs per-device Redirectable for all 128 switch combinations"}})
+    out.coverage["rule"] = ("all 128 redirect-switch combinations x idle-timeout classes x capability settings, one gateway instance per configuration, "
+                            "8 request outcomes each (accepted, wrong phase, denied host, unreachable host, capability mismatch, bad cookie, repeated step, early close); "
+                            "raw responses decoded by the harness's independent MS-TSGU decoder; verdict by TLC (G_C16_*)")
+    return out
+
+
+@check("C02")
+def c02(work, tier, seed, replay):
+    if replay:
+        return replay_tunnel("C02", work, tier, seed, replay)
+    import fam_tokens as fk
+    return fk.c02(work, tier, seed)
+
+
+@check("C03")
+def c03(work, tier, seed, replay):
+    if replay:
+        return replay_tunnel("C03", work, tier, seed, replay)
+    design, scripts, nq = ft.gen_policy_scripts(work, "host", tier, seed)
+    d2 = design_check("MC_Proto", "MC_Proto.cfg", work, workers=8, timeout=600)
+    out = tunnel_family("C03", work, tier, seed, scripts, design, jobs=16, extra_cov={"policy_requests_enumerated": nq, "tunnel_model_states": d2.get("distinct")})
+    out.coverage["rule"] = ("requests enumerated by TLC from MC_Policy (mode x host list x user x token host x requested name incl. near-misses x port); each becomes a full "
+                            "handshake..channel-create exchange on the real binary; the dial string comes from the proc.dial hook; verdict by TLC (Policy!Verdict via G_C03_*)")
+    return out
+
+
+@check("C04")
+def c04(work, tier, seed, replay):
+    if replay:
+        return replay_tunnel("C04", work, tier, seed, replay)
+    design, scripts, nq = ft.gen_policy_scripts(work, "addr", tier, seed, quick_n=700)
+    d2 = design_check("MC_Proto", "MC_Proto.cfg", work, workers=8, timeout=600)
+    # C04 is decided by the host/address guards evaluated on address-varying requests
+    out = tunnel_family("C04", work, tier, seed, scripts, design, jobs=16,
+                        owns=lambda v: v["guard"] in ("G_C03_DialIffAllowed", "G_C03_MalformedNotDialled", "G_C03_DialIsRequest"),
+                        extra_cov={"address_pairs_enumerated": nq, "tunnel_model_states": d2.get("distinct")})
+    out.coverage["rule"] = ("(issuing address, presenting X-Forwarded-For chain, presenting TCP peer, switch) enumerated by TLC from MC_Policy mode addr; tokens minted through the real "
+                            "/connect flow from the issuing address and presented from the other; verdict by TLC (Policy!Verdict incl. ClientAddr) via G_C03_DialIffAllowed")
+    return out
